@@ -84,7 +84,7 @@ def classify(line):
 CFG = dict(
     imports=["From Verif.C14 Require Import Model Spec Cases.", "Open Scope Z_scope."],
     checker="check_any",
-    n=dict(quick=300, thorough=8000),
+    n=dict(quick=240, thorough=8000),
     shard=75,
     classify=classify,
     rule="three streams per 20 cases: 12 scanner cases (below), 7 direct calls of EntryExpired+EntryFinished (random timeouts, protocol 6/17/1/58/132/47/0, every TCP flag shape, DSR, rst_seen timestamps between last_seen and now, idle time at/around every applicable timeout; reasons compared with the model and checked against the rule table), 1 timeouts.GetTimeouts call on a random configuration map (valid, negative, unparsable, unknown and CreationGracePeriod keys).  Scanner cases: IPv4 (60%) or IPv6 (40%: KeyV6/ValueV6, ipVersion-6 Scanner, cali_v6_ccq cleanup values) flavour per case; 1-3 Scan() calls of the real Scanner+LivenessScanner over a table of 1-8 groups (normal entries of TCP/UDP/ICMP/"
